@@ -29,6 +29,10 @@ inductive Child (resolveCd : String → String → String) (walked : List String
     Piece × String → Piece × String → Prop where
   -- simple command: every word (assignments included) and every redirection
   | cmdWord {ws rs cwd wd} : wd ∈ ws → Child resolveCd walked r (.node (.command ws rs), cwd) (.word wd, cwd)
+  /-- `NAME[subscript]=value` (also as an argument of declare/local/export): bash evaluates the subscript as
+      arithmetic, whatever its quoting -/
+  | cmdSubscript {ws rs cwd wd t} : wd ∈ ws → assignSubscript wd.value = some t →
+      Child resolveCd walked r (.node (.command ws rs), cwd) (.text false t, cwd)
   | cmdRedir {ws rs cwd rd} : rd ∈ rs → Child resolveCd walked r (.node (.command ws rs), cwd) (.redir rd, cwd)
   -- compound commands
   | pipeline {cmds cwd n} : n ∈ cmds → Child resolveCd walked r (.node (.pipeline cmds), cwd) (.node n, cwd)
